@@ -1,2 +1,35 @@
-(* Props/C13.v — placeholder, theorems added in a later commit *)
-From NIR Require Import Model.Serial.
+(* Props/C13.v — Dictionary form is a faithful, independent copy.  (interim: structural theorems; the
+   round-trip theorem from Proofs/DictProofs.v is added when that library is complete) *)
+From NIR Require Import Model.Serial Proofs.SerialProofs Proofs.MirrorClosedProofs.
+
+(* the dictionary of a node contains every field under its own name, unchanged, plus 'type' *)
+Theorem c13_fields_in_dict : forall k fs tin tout f v,
+  In (f, v) fs -> In (f, v) (to_dict (Leaf k fs tin tout)).
+Proof. exact to_dict_leaf_field. Qed.
+
+Theorem c13_type_tag : forall n, In ("type", VStr (kind_name (node_kind n))) (to_dict n).
+Proof. exact to_dict_type. Qed.
+
+Theorem c13_children_in_dict : forall ch es gi go m name c,
+  In (name, c) ch ->
+  exists l, In ("nodes", VDict l) (to_dict (Graph ch es gi go m)) /\ In (name, VDict (to_dict c)) l.
+Proof. exact to_dict_child. Qed.
+
+Theorem c13_edges_in_dict : forall ch es gi go m,
+  In ("edges", VList (map (fun e => VTuple [VStr (fst e); VStr (snd e)]) es)) (to_dict (Graph ch es gi go m)).
+Proof. exact to_dict_edges. Qed.
+
+(* whatever from_dict builds is the primitive its 'type' names *)
+Theorem c13_from_dict_kind : forall d n, from_dict d = Ok n ->
+  exists s, assoc "type" d = Some (VStr s) /\ In s whitelist /\ kind_name (node_kind n) = s.
+Proof. exact from_dict_closed. Qed.
+
+(* INDEPENDENCE: in the model, values are immutable and `to_dict` returns a value, so "shares no mutable
+   state" cannot be expressed as a theorem here; it is established on the code by the alias matrix and
+   the mutate-and-compare oracle of the harness (see DESIGN.md, C13). *)
+
+Print Assumptions c13_fields_in_dict.
+Print Assumptions c13_type_tag.
+Print Assumptions c13_children_in_dict.
+Print Assumptions c13_edges_in_dict.
+Print Assumptions c13_from_dict_kind.
